@@ -123,3 +123,11 @@ package p2p
 //@   loop 1 invariant delivered_so_far: forall sub Subscriber :: sel(delivered, sub) == sel(old(delivered), sub) + (in($visited, sub) && sub.Match(msg) ? 1 : 0)
 //@   loop 1 invariant visited_registered: forall sub Subscriber :: in($visited, sub) ==> in(d.mc[typ], sub)
 //@   loop 1 invariant locked: sel(rwHeld, d.mu) == 1 && msg != nil && msg.Header != nil && !d.IsHandled(msg)
+
+// Handing a message to a subscriber does not alter it: the dispatcher computes the "handled"
+// key from the same object afterwards. The only header a handler-type subscriber writes is
+// the REPLY's, which takes over the request's log id.
+//@ func subscriber.HandleMessage
+//@   property C20
+//@   local resp *xuperp2p.XuperMessage
+//@   at fieldwrite.Logid assert the_reply_takes_the_requests_log_id: $0 == resp.Header && $1 == msg.Header.Logid
